@@ -14,7 +14,8 @@ import ast
 from typing import Dict, List, Optional, Set, Tuple
 
 from ..index import AnalysisError, call_name, norm, norm1
-from .common import calls, enclosing, fctx, in_body, is_name, method_calls, stmts, store_targets
+from ..sem import Sem, helper_calls
+from .common import calls, enclosing, fctx, in_body, is_name, kwarg, method_calls, stmts, store_targets
 
 LEVEL = "other"
 EXPLANATION = (
@@ -133,15 +134,36 @@ def run(ctx) -> None:
             r1.violation(f, f.node, f"{q} does not permute wannier_centers_cart", stmt="centres")
             continue
         I = norm(cst[0].value.slice)
-        mats = _matrix_reindex(f)
-        okm = len(mats) == 1 and sorted(mats[0][1]) == [(1, I), (2, I)]
-        lp = enclosing(pm, mats[0][0], ast.For) if mats else None
-        okm = okm and lp is not None and norm(lp.iter) == "self._XX_R.items()"
-        r1.check(okm, f"every _XX_R[key] is re-indexed with `{I}` on both Wannier axes", f, mats[0][0] if mats else f.node,
-                 f"{q}: the real-space matrices are re-indexed with {mats[0][1] if mats else None} while the centres use `{I}` "
-                 f"(all keys: {norm1(lp.iter) if lp is not None else None}): rows, columns and centres end up in different orders")
+        S = Sem(idx, f)
+        mats = []    # (function, stmt, [(axis, index text)], loop iter text)
+        for g, S_g in [(f, S)] + [(g_, s_) for g_, _, s_ in helper_calls(idx, S)]:
+            for st_ in stmts(g.node):
+                if isinstance(st_, ast.Assign) and isinstance(st_.targets[0], ast.Subscript) and norm(st_.targets[0].value) == "self._XX_R":
+                    keyv = norm(st_.targets[0].slice)
+                    e_ = S_g.resolve(st_.value, S_g.cfg.node(st_))
+                    idxs = []
+                    while isinstance(e_, ast.Subscript):
+                        sl = e_.slice
+                        elts = sl.elts if isinstance(sl, ast.Tuple) else [sl]
+                        if not isinstance(sl, ast.Tuple) and norm(sl) == keyv:
+                            break
+                        idxs += [(i_, norm(x)) for i_, x in enumerate(elts) if norm(x) != ":"]
+                        e_ = e_.value
+                    base_ok = norm(e_) in (f"self._XX_R[{keyv}]",)
+                    lp_ = enclosing(S_g.pm, st_, ast.For)
+                    allkeys = lp_ is not None and ((norm(lp_.iter) == "self._XX_R.items()" and isinstance(lp_.target, ast.Tuple) and norm(lp_.target.elts[0]) == keyv)
+                                                   or (norm(lp_.iter) in ("self._XX_R", "self._XX_R.keys()", "list(self._XX_R)", "list(self._XX_R.keys())") and norm(lp_.target) == keyv))
+                    mats.append((g, st_, idxs, base_ok and allkeys))
+        okm = len(mats) == 1 and sorted(mats[0][2]) == [(1, I), (2, I)] and mats[0][3]
+        r1.check(okm, f"every _XX_R[key] is re-indexed with `{I}` on both Wannier axes", mats[0][0] if mats else f, mats[0][1] if mats else f.node,
+                 f"{q}: the real-space matrices are re-indexed with {mats[0][2] if mats else None} while the centres use `{I}`"
+                 f"{'' if (mats and mats[0][3]) else ' (or not for every key of self._XX_R)'}: rows, columns and centres end up in different orders")
         rc = [c for c in method_calls(f.node, "reorder") if norm(c.func.value) == "self.rvec"]
-        okr = len(rc) == 1 and len(rc[0].args) == 1 and not rc[0].keywords and norm(rc[0].args[0]) == I
+        okr = False
+        if len(rc) == 1:
+            a0 = kwarg(rc[0], "order_left", 0)
+            a1 = kwarg(rc[0], "order_right", 1)
+            okr = a0 is not None and norm(a0) == I and (a1 is None or norm(a1) == I)
         r1.check(okr, f"rvec.reorder({I}) permutes the centre shifts with the same index", f, rc[0] if rc else f.node,
                  f"{q}: the R-vector shifts are re-ordered with `{norm1(rc[0]) if rc else 'nothing'}` but centres/matrices with `{I}`: "
                  f"derivatives use R + τj − τi of the wrong functions")
